@@ -145,6 +145,12 @@ func (ce *cenv) ident(name string) cvar {
 	if v, ok := ce.vars[name]; ok {
 		return v
 	}
+	if !ce.useCells && ce.fr != nil {
+		// postconditions may mention locals (their value at the return)
+		if v, ok := ce.lookupLocal(name); ok {
+			return v
+		}
+	}
 	x := ce.x
 	// ghost names
 	switch name {
